@@ -190,6 +190,9 @@ func checkC25(c *Ctx, r *Report) {
 		checkMonotoneRating(m, r, rc, sc)
 	}
 
+	r.rule("C25.R6", "RecordOperation files every operation with its own latency and its failure flag: each path to the write of S3HealthMonitor.samples has stored the latency parameter into s3Sample.latency and (err != nil) into s3Sample.err, and nothing else is ever stored there", 2)
+	r.Explanation += " (R6) RecordOperation files every operation with its own latency parameter and err != nil on every path to the write of samples, and stores nothing else into those two fields."
+	checkSampleFaithful(m, r, "C25.R6")
 	// ---- R5: every sample of the window contributes to both aggregates
 	r.rule("C25.R5", "in recomputeLocked every sample adds its latency unconditionally, the error count grows exactly under sample.err, and both aggregates are divided by len(samples)", 4)
 	if rc := m.Func(pkgBrokerLib, "(*S3HealthMonitor).recomputeLocked"); rc != nil {
@@ -679,4 +682,73 @@ func ifPos(m *Module, ifi *ssa.If) string {
 		}
 	}
 	return "?"
+}
+
+// checkSampleFaithful (C25.R6, added after a seeded change recorded failed operations with latency
+// zero, so that an extra failure lowered the average latency and improved the rating).
+func checkSampleFaithful(m *Module, r *Report, rule string) {
+	ro := needFn(m, r, rule, pkgBrokerLib, "(*S3HealthMonitor).RecordOperation")
+	if ro == nil {
+		return
+	}
+	tSample := pkgBrokerLib + ".s3Sample"
+	storeTo := func(in ssa.Instruction, field string) (*ssa.Store, bool) {
+		st, ok := in.(*ssa.Store)
+		if !ok {
+			return nil, false
+		}
+		fa, ok := st.Addr.(*ssa.FieldAddr)
+		if !ok {
+			return nil, false
+		}
+		t, f, _, ok := fieldAddrInfo(fa)
+		return st, ok && t == tSample && f == field
+	}
+	good := map[string]func(v ssa.Value) bool{
+		"latency": func(v ssa.Value) bool {
+			p, ok := strip(v).(*ssa.Parameter)
+			return ok && p.Type().String() == "time.Duration"
+		},
+		"err": func(v ssa.Value) bool {
+			b, ok := strip(v).(*ssa.BinOp)
+			if !ok || b.Op != token.NEQ {
+				return false
+			}
+			_, px := strip(b.X).(*ssa.Parameter)
+			_, py := strip(b.Y).(*ssa.Parameter)
+			return (px && alwaysNil(b.Y)) || (py && alwaysNil(b.X))
+		},
+	}
+	var sinks []ssa.Instruction
+	for _, st := range storesToField(ro, pkgBrokerLib+".S3HealthMonitor", "samples") {
+		sinks = append(sinks, st)
+	}
+	if len(sinks) == 0 {
+		r.unresolved(rule, "RecordOperation: write of samples", "not found")
+		return
+	}
+	for _, field := range []string{"latency", "err"} {
+		key := "RecordOperation stores the operation's own " + field + " in every sample"
+		bad := ""
+		for _, b := range ro.Blocks {
+			for _, in := range b.Instrs {
+				if st, ok := storeTo(in, field); ok && !good[field](st.Val) {
+					bad = "s3Sample." + field + " is set to " + describe(st.Val) + " at " + m.Pos(st.Pos())
+				}
+			}
+		}
+		if bad == "" {
+			if ok, path := mustPassBefore(m, ro, sinks[0], func(in ssa.Instruction) bool {
+				st, ok := storeTo(in, field)
+				return ok && good[field](st.Val)
+			}); !ok {
+				bad = "a sample can be filed without its " + field + " (zero value): " + path + " — such a sample pulls the window's aggregate towards 'healthy', so more failures or slower calls can give a better rating"
+			}
+		}
+		if bad == "" {
+			r.ok(rule, key, m.Pos(sinks[0].Pos()), "")
+		} else {
+			r.viol(rule, key, m.Pos(sinks[0].Pos()), bad)
+		}
+	}
 }
